@@ -16,7 +16,7 @@ from .. import runner
 from ..worker import Worker, arg, unjson
 
 LEVEL = "exploration"
-RULE = ("cases = (generated child program, history of 3-14 steps over {run, edit source, edit include, edit parent, touch source / include / parent, "
+RULE = ("cases = (generated child program, history of 3-14 steps over {run, edit source, edit include, edit parent, touch source / include / parent / the parent's own include, edit the parent's own include (which changes the parent's variable layout), "
         "touch simul_efun file (driver restart)}); logical modification times are set explicitly and strictly increase; after a run the binaries it "
         "wrote get that run's logical time. non-trivial = at least one run loaded the child from its binary and at least one run had to recompile because "
         "of an edit or touch; distinct = (program, history) hash")
@@ -26,11 +26,17 @@ ASSUMPTIONS = ["whether a binary was used is read from the interposed libc file-
 NONTRIVIAL_FLOOR = {"quick": 100, "thorough": 2000}
 
 PARENT = '''#pragma save_binary
+#include "c17p.h"
+#if PK %% 2
+int extra_pg = PK;          // the parent's variable layout depends on its own header
+#endif
 int pg = %(pv)d;
 int parent_fn(int a) { return a * 3 + %(pv)d; }
 string parent_name() { return "parent%(pv)d"; }
+int parent_k() { return PK; }
 string psw(string v) { switch (v) { case "x": return "px"; case "parent%(pv)d": return "self"; case "y": return "py"; } return "pdefault"; }
 '''
+PHEADER = '#define PK %(pk)d\n'
 HEADER = '#define K %(k)d\n#define KS "ks%(k)d"\n'
 CHILD_HEAD = '''#pragma save_binary
 %(pragma)s
@@ -55,7 +61,7 @@ mixed extra() {
   function g = function(int a) { return a * %(cv)d; };
   p->x = K + cv; p->s = parent_name();
   return ({ p->x, p->s, evaluate(f, 1), evaluate(g, 3), parent_fn(2), sw("a"), sw(KS), sw("a longer label %(cv)d"), sw("zz"), sw(0), cv, pg,
-            psw("x"), psw(parent_name()), psw("nope"), function_exists("parent_fn", this_object()), sizeof(functions(this_object())) });
+            psw("x"), psw(parent_name()), psw("nope"), parent_k(), function_exists("parent_fn", this_object()), sizeof(functions(this_object())) });
 }
 void fail_here() {
   int z;
@@ -72,7 +78,7 @@ def cases(draw):
     n = draw(st.integers(3, 14))
     ops = ["run"]
     for _ in range(n):
-        ops.append(draw(st.sampled_from(["run", "run", "run", "edit_src", "edit_inc", "edit_parent", "touch_src", "touch_inc", "touch_parent", "touch_simul"])))
+        ops.append(draw(st.sampled_from(["run", "run", "run", "edit_src", "edit_inc", "edit_parent", "touch_src", "touch_inc", "touch_parent", "touch_simul", "edit_pinc", "edit_pinc", "touch_pinc"])))
     ops.append("run")
     return dict(y=y, ops=ops, save_types=draw(st.booleans()))
 
@@ -80,7 +86,7 @@ def cases(draw):
 class State:
     def __init__(self):
         self.t = int(time.time()) - 500000
-        self.cv, self.k, self.pv = 5, 7, 11
+        self.cv, self.k, self.pv, self.pk = 5, 7, 11, 2
         self.mt = {}
         self.bmt = {"c": None, "p": None}       # logical time at which the binary on disk was written
         self.bsimul = {"c": None, "p": None}
@@ -94,7 +100,7 @@ def sources(case, s):
     from . import c03
     files, names = c03.render_program(case["y"])
     child = (CHILD_HEAD % dict(pragma="#pragma save_types" if case["save_types"] else "", cv=s.cv)) + files["r"] + (CHILD_TAIL % dict(cv=s.cv))
-    return {"t/c17c.c": child, "t/c17p.c": PARENT % dict(pv=s.pv), "t/c17.h": HEADER % dict(k=s.k)}, names
+    return {"t/c17c.c": child, "t/c17p.c": PARENT % dict(pv=s.pv), "t/c17.h": HEADER % dict(k=s.k), "t/c17p.h": PHEADER % dict(pk=s.pk)}, names
 
 
 def put(workers, s, path, text=None):
@@ -152,7 +158,7 @@ def evaluate_case(ctx, case):
     feats = set()
     try:
         src, names = sources(case, s)
-        for path in ("t/c17p.c", "t/c17.h", "t/c17c.c"):
+        for path in ("t/c17p.h", "t/c17p.c", "t/c17.h", "t/c17c.c"):
             put([w, ref], s, path, src[path])
         put([w, ref], s, "simul_efun.c")
         w.close(); ref.close()
@@ -180,7 +186,8 @@ def evaluate_case(ctx, case):
                         return ("crash:" + cr[1][:70], "%s driver\n%s\n%s" % (nm, info, cr[2][:3000])), None
                 used, flog = binary_use(res)
                 # staleness: what the model knows to be newer than each binary
-                deps = {"p": ["t/c17p.c"], "c": ["t/c17c.c", "t/c17.h", "t/c17p.c"]}
+                deps = {"p": ["t/c17p.c", "t/c17p.h"], "c": ["t/c17c.c", "t/c17.h", "t/c17p.c"]}
+                parent_stale = s.bmt["p"] is None or any(s.mt[d] > s.bmt["p"] for d in deps["p"]) or s.bsimul["p"] != s.mt["simul_efun.c"]
                 for key in ("c", "p"):
                     if used[key] == "binary":
                         feats.add("loaded-from-binary:" + key)
@@ -191,6 +198,8 @@ def evaluate_case(ctx, case):
                             newer.append("binary of the inherited program")
                         if s.bsimul[key] != s.mt["simul_efun.c"]:
                             newer.append("simul_efun.c")
+                        if key == "c" and parent_stale:
+                            newer.append("the inherited program (recompiled in this very run)")
                         if newer:
                             return ("stale-binary-used", "the binary of %s was used although %r %s newer\n%s" % (
                                 {"c": "t/c17c", "p": "t/c17p"}[key], newer, "is" if len(newer) == 1 else "are", info)), None
@@ -221,10 +230,12 @@ def evaluate_case(ctx, case):
                     s.cv += 1
                 elif op == "edit_inc":
                     s.k += 1
+                elif op == "edit_pinc":
+                    s.pk += 1
                 else:
                     s.pv += 1
                 src, names = sources(case, s)
-                path = {"edit_src": "t/c17c.c", "edit_inc": "t/c17.h", "edit_parent": "t/c17p.c"}[op]
+                path = {"edit_src": "t/c17c.c", "edit_inc": "t/c17.h", "edit_parent": "t/c17p.c", "edit_pinc": "t/c17p.h"}[op]
                 put([w, ref], s, path, src[path])
                 feats.add(op)
             elif op == "touch_simul":
@@ -234,7 +245,7 @@ def evaluate_case(ctx, case):
                 ref = Worker(rdir, timeout=30, keep_mudlib=True)
                 feats.add(op)
             else:
-                put([w, ref], s, {"touch_src": "t/c17c.c", "touch_inc": "t/c17.h", "touch_parent": "t/c17p.c"}[op])
+                put([w, ref], s, {"touch_src": "t/c17c.c", "touch_inc": "t/c17.h", "touch_parent": "t/c17p.c", "touch_pinc": "t/c17p.h"}[op])
                 feats.add(op)
         return None, feats
     finally:
